@@ -17,7 +17,7 @@ const propC14 = "C14"
 var DevCommands = []string{"migrate-validate", "migrate-diff", "migrate-lint", "schema-apply-dir", "schema-apply-sql", "schema-diff-sql", "schema-inspect-sql", "schema-apply-hcl-dev"}
 
 // DevStates are the initial states of the dev database.
-var DevStates = []string{"no-file", "empty-file", "user-tables", "leftovers", "view-only", "virtual-tables"}
+var DevStates = []string{"no-file", "empty-file", "user-tables", "leftovers", "view-only", "virtual-tables", "table-named-like-internal"}
 
 func devMaster(d *observe.Dump) string {
 	m := append([]string(nil), d.Master...)
@@ -90,9 +90,21 @@ func C14(r *simkit.Run) {
 			Stmt{ID: fmt.Sprintf("f%d.s%d", f.Idx, k+1), Kind: KDDL, SQL: fmt.Sprintf("CREATE VIEW view_f%d AS SELECT id FROM journal", f.Idx)})
 		r.Probe("directory-with-trigger-and-view")
 	}
-	fault := []string{"none", "bad-statement", "crash"}[t.Weighted("fault", 2, 3, 2)]
+	// Faults: a failing statement; a failing statement inside an explicit BEGIN ... COMMIT block (the
+	// failure leaves the block's transaction open); a transaction block that is never closed; an
+	// object every statement creates fine but the state reading that follows the replay cannot
+	// digest (the failure happens between the replay and the restore); a process crash.
+	fault := []string{"none", "bad-statement", "crash", "bad-statement-in-transaction-block", "unterminated-transaction-block", "unreadable-object"}[t.Weighted("fault", 2, 3, 2, 1, 1, 2)]
 	if command == "migrate-lint" && fault == "crash" {
 		fault = "bad-statement" // lint replays with its own loop: no instrumented point
+	}
+	// Objects SQLite accepts and the inspector rejects: a self reference to a missing column, a
+	// partial index whose WHERE is not spelled in upper case.
+	unreadable := func(table, col string) string {
+		if t.Chance("unreadable-kind", 1, 2) {
+			return fmt.Sprintf("CREATE TABLE fkbad_%s (id int, p int REFERENCES fkbad_%s(nope))", table, table)
+		}
+		return fmt.Sprintf("CREATE INDEX part_%s ON %s (%s) where %s > 0", table, table, col, col)
 	}
 	// With an HCL source the SQLite driver never executes anything on the dev database (it has
 	// no normaliser): the command cannot damage it, and the oracle only asks that it is untouched.
@@ -105,7 +117,16 @@ func C14(r *simkit.Run) {
 		n := t.Range("sql-schema-tables", 1, 4)
 		for i := 1; i <= n; i++ {
 			if i == bad || (bad > n && i == n) {
-				b.WriteString("CREATE TABLE broken (id int REFERENCES);\n")
+				switch fault {
+				case "bad-statement-in-transaction-block":
+					b.WriteString("BEGIN;\nCREATE TABLE inblock (id int);\nCREATE TABLE broken (id int REFERENCES);\nCOMMIT;\n")
+				case "unterminated-transaction-block":
+					b.WriteString("BEGIN;\nCREATE TABLE inblock (id int);\n")
+				case "unreadable-object":
+					fmt.Fprintf(&b, "CREATE TABLE s%d (id int, v text);\n%s;\n", i, unreadable(fmt.Sprintf("s%d", i), "id"))
+				default:
+					b.WriteString("CREATE TABLE broken (id int REFERENCES);\n")
+				}
 				continue
 			}
 			fmt.Fprintf(&b, "CREATE TABLE s%d (id int, v text);\n", i)
@@ -125,6 +146,29 @@ func C14(r *simkit.Run) {
 				f.Stmts = append(f.Stmts, MkStmt("f1", len(f.Stmts), KBad))
 			} else {
 				f.Stmts[k] = MkStmt(fmt.Sprintf("f%d", f.Idx), k, KBad)
+			}
+		} else {
+			badPos = 1 + t.Draw("bad-sql-pos", 3)
+		}
+	}
+	if fault == "bad-statement-in-transaction-block" || fault == "unterminated-transaction-block" || fault == "unreadable-object" {
+		if usesDir {
+			f := files[t.Draw("bad-file", len(files))]
+			tag := fmt.Sprintf("f%d", f.Idx)
+			add := func(sql string) {
+				f.Stmts = append(f.Stmts, Stmt{ID: fmt.Sprintf("%s.s%d", tag, len(f.Stmts)), Kind: KDDL, SQL: sql})
+			}
+			switch fault {
+			case "bad-statement-in-transaction-block":
+				add("BEGIN")
+				add(fmt.Sprintf("CREATE TABLE inblock_%s (id int)", tag))
+				f.Stmts = append(f.Stmts, MkStmt(tag, len(f.Stmts), KBad))
+				add("COMMIT")
+			case "unterminated-transaction-block":
+				add("BEGIN")
+				add(fmt.Sprintf("CREATE TABLE inblock_%s (id int)", tag))
+			default:
+				add(unreadable("journal", "n"))
 			}
 		} else {
 			badPos = 1 + t.Draw("bad-sql-pos", 3)
@@ -174,7 +218,7 @@ func C14(r *simkit.Run) {
 	}
 	// Initial dev state.
 	switch state {
-	case "empty-file", "user-tables", "view-only", "virtual-tables":
+	case "empty-file", "user-tables", "view-only", "virtual-tables", "table-named-like-internal":
 		db, err := observe.Open(w.DevDB)
 		if err != nil {
 			simkit.Harnessf("open dev: %v", err)
@@ -183,6 +227,10 @@ func C14(r *simkit.Run) {
 		switch state {
 		case "user-tables":
 			stmts = "CREATE TABLE precious (id int, v text); INSERT INTO precious VALUES (1,'a'),(2,'b'); CREATE INDEX precious_v ON precious (v)"
+		case "table-named-like-internal":
+			// Ordinary user tables whose names merely start like SQLite's (or libSQL's) internal ones.
+			name := []string{"sqlitedata", "sqlite3_backup", "libsqlxdata", "sqlite0"}[t.Draw("internal-like-name", 4)]
+			stmts = fmt.Sprintf("CREATE TABLE %s (id int, v text); INSERT INTO %s VALUES (1,'a'),(2,'b')", name, name)
 		case "view-only":
 			stmts = "CREATE VIEW only_view AS SELECT 1 AS one"
 		case "virtual-tables":
@@ -316,7 +364,10 @@ func C14(r *simkit.Run) {
 		r.Fail(propC14, "handed-back-empty", sig("dev-not-empty-after-"+outcome), "`%s` (fault=%s, %s) left objects in the dev database:\n%s", command, fault, outcome, devMaster(devAfter))
 		return
 	}
-	if fault == "bad-statement" {
+	if fault != "none" && fault != "crash" {
+		r.Fired("replay-fault/" + fault)
+	}
+	if fault == "bad-statement" || fault == "bad-statement-in-transaction-block" {
 		if res.Exit == 0 && command != "migrate-lint" {
 			r.Fail(propC14, "harness-expectation", sig("bad-statement-not-reached"), "the failing statement did not make `%s` fail", command)
 			return
